@@ -302,6 +302,9 @@ pub extern "C" fn shv_m_fcntl(fd: c_int, cmd: c_int, arg: c_int) -> c_int {
     unsafe {
         if cmd == libc::F_GETFL {
             kani::assume(r == -1 || r == FCNTL_GETFL);
+        } else if cmd == libc::F_GETFD {
+            // descriptor flags: the descriptor may or may not already carry FD_CLOEXEC (pipe2(O_CLOEXEC), std sockets)
+            kani::assume(r == -1 || r == 0 || r == libc::FD_CLOEXEC);
         } else {
             kani::assume(r == 0 || r == -1);
         }
@@ -315,6 +318,9 @@ pub extern "C" fn shv_m_fcntl(fd: c_int, cmd: c_int, arg: c_int) -> c_int {
             } else {
                 if cmd == libc::F_GETFL {
                     kani::assume(r == FCNTL_GETFL);
+                }
+                if cmd == libc::F_GETFD {
+                    kani::assume(r != -1);
                 }
                 if cmd == libc::F_SETFL && r == 0 {
                     FD_NONBLOCK = (arg & libc::O_NONBLOCK) != 0;
